@@ -19,6 +19,8 @@ EXPLANATION = (
     'deep-copies both components; __eq__ is allclose on both components; (R7) to_sky/from_sky forward wcs, origin and mode '
     'unchanged to SkyCoord.from_pixel/to_pixel, x before y, with defaults origin=0, mode="all". Not decided: numpy '
     'broadcasting/indexing semantics themselves; WCS round-trip numerics.')
+EXPLANATION_ADDED = (" (R8) integer components: the arithmetic methods never multiply or square possibly-integer component arrays (C01.R9's dataflow).")
+EXPLANATION += EXPLANATION_ADDED
 TRUSTED = ['np.broadcast_arrays, ndarray indexing, zip, len', 'SkyCoord.from_pixel(xp, yp, wcs, origin, mode) / SkyCoord.to_pixel']
 ASSUMPTIONS = ['real arithmetic']
 
